@@ -91,8 +91,10 @@ macro_rules! impl_scalar_ratio { ($t:ty, $name:expr) => {
             let h = match <$t as ToBig>::bits() { Some(n) => (n - 18) as usize, None => bits as usize };
             let k = num_traits::pow(BigInt::from(2), h) + 1;
             let sb = match <$t as ToBig>::bits() { Some(_) => 10, None => bits / 4 };
-            let (mut s1, mut s2) = (rand_big(rng, sb), rand_big(rng, sb).abs());
-            if s1.is_zero() { s1 = BigInt::from(1); } if s2.is_zero() { s2 = BigInt::from(1); }
+            // s1, s2 of full length sb (top bit set), so that K s1 s3 is beyond the machine range for machine types
+            let top = num_traits::pow(BigInt::from(2), (sb - 1) as usize);
+            let full = |rng: &mut StdRng| -> BigInt { &top + (rand_big(rng, sb - 1).abs() % &top) };
+            let (s1, s2) = (if rng.gen_bool(0.5) { full(rng) } else { -full(rng) }, full(rng));
             let (n, d) = if which == 1 { (&k * &s1, s2) } else { (s1, &k * &s2) };
             let (nn, dd) = (<$t as ToBig>::from_big(&n)?, <$t as ToBig>::from_big(&d)?);
             Some((Ratio::new(nn, dd), json!({"n": big_json(&n), "d": big_json(&d)})))
